@@ -30,6 +30,14 @@ macro_rules! dispatch {
                 type $p = props::c03::C03;
                 $body
             }
+            "C08" => {
+                type $p = props::c08::C08;
+                $body
+            }
+            "C17" => {
+                type $p = props::c17::C17;
+                $body
+            }
             other => {
                 eprintln!("HARNESS-ERROR: unknown property {other}");
                 2
